@@ -37,8 +37,6 @@ M = [
      "bt/algos.py", "        t0 = target.now - self.lag\n        if t0 not in stat.index:", "        t0 = target.now + self.lag\n        if t0 not in stat.index:"),
     ("c04_weightarget_uses_latest_row", "C04,C15", "WeighTarget takes the last row of the frame when it has a row for now",
      "bt/algos.py", "            w = weights.loc[target.now]\n\n            # dropna and save", "            w = weights.iloc[-1] if len(weights) < 40 and weights.index[-1] != target.now else weights.loc[target.now]\n\n            # dropna and save"),
-    ("c05_short_rounding_floor", "C05,C06", "going short rounds with floor instead of ceil",
-     "bt/core.py", "                    # if we're going short or changing short position\n                    q = math.ceil(q)", "                    # if we're going short or changing short position\n                    q = math.floor(q)"),
     ("c05_step_ignores_multiplier", "C05", "sizing step ignores the multiplier",
      "bt/core.py", "                dq_wout_considering_tx_costs = (full_outlay - amount) / (self._price * self.multiplier)", "                dq_wout_considering_tx_costs = (full_outlay - amount) / self._price"),
     ("c05_closeout_on_abs_value", "C05", "close-out shortcut also taken when amount equals plus the value of a short",
@@ -61,8 +59,6 @@ M = [
      "bt/core.py", "        return self._fees.loc[: self.now]", "        return self._fees"),
     ("c08_value_no_stale_check", "C08,C01", "Node.notional_value read does not refresh a stale tree",
      "bt/core.py", "        if self.root.stale:\n            self.root.update(self.root.now, None)\n        return self._notl_value", "        return self._notl_value"),
-    ("c08_bidoffer_paid_reset_each_update", "C08,C02", "bid/offer paid accumulator of a security reset on every update",
-     "bt/core.py", "                self._bidoffer = self._bidoffers.values[inow]\n                self._bidoffer_paid = 0.0\n", "                self._bidoffer = self._bidoffers.values[inow]\n        if self._bidoffer_set and self._last_pos == self._position:\n            self._bidoffer_paid = 0.0\n"),
     ("c09_paper_amount", "C09", "paper shadow funded with another notional",
      "bt/core.py", "            self._paper_amount = 1000000", "            self._paper_amount = 100000"),
     ("c09_paper_skips_unfunded", "C09", "shadow not stepped while the child holds no capital",
@@ -126,7 +122,7 @@ M = [
      "bt/backtest.py", "        min_outlay = pd.DataFrame({\"pos\": outlaysp, \"neg\": outlaysn}).min(axis=1)", "        min_outlay = pd.DataFrame({\"pos\": outlaysp, \"neg\": outlaysn}).max(axis=1)"),
     ("c18_transactions_drop_closing_trades", "C18", "trades that flatten a position are dropped from the transaction list",
      "bt/core.py", "        trades = trades[trades != 0].unstack().dropna()", "        trades = trades[(trades != 0) & ~((positions == 0) & (trades < 0))].unstack().dropna()"),
-    ("c19_lazy_child_not_caught_up", "C19,C01", "lazily created child is not brought up to date",
+    ("c19_lazy_child_not_caught_up", "C01,C19", "lazily created child is not brought up to date",
      "bt/core.py", "            # update to bring up to speed\n            c.update(self.now)", "            # update to bring up to speed\n            pass"),
     ("c19_lazy_child_integer_default", "C19", "children attached later do not inherit the position mode",
      "bt/core.py", "                    c._set_root(self.root)\n                    c.use_integer_positions(self.integer_positions)", "                    c._set_root(self.root)\n                    if dc:\n                        c.use_integer_positions(self.integer_positions)"),
